@@ -196,6 +196,18 @@ def c20_jobs(tier, seed):
     return j
 
 
+def c17_jobs(tier, seed):
+    q = tier == "quick"
+    j = []
+    for g in ("ps", "rr"):
+        for svc, n in (("local", 3), ("ipc", 4)):
+            j += [Job("dbg", "w_ports", "c17 --graph %s --svc %s --nshards %d --shard %d --every %d --seed %d --secs %d" % (g, svc, n, i, 12 if q else 1, seed, 200 if q else 2400), timeout=600 if q else 3000, engine="drop-permutations") for i in range(n)]
+    for svc in ("local", "ipc"):
+        j += [Job("dbg", "w_ports", "c17 --graph ev --svc %s --nshards 1 --shard 0 --every %d --seed %d --secs 600" % (svc, 2 if q else 1, seed), timeout=900, engine="drop-permutations")]
+    j += [Job("asan", "w_ports", "c17 --graph %s --svc local --nshards 1 --shard 0 --every %d --seed %d --secs 300" % (g, 60 if q else 6, seed), timeout=900, engine="drop-permutations-asan") for g in ("ps", "rr", "ev")]
+    return j
+
+
 PROPS = {
     "C09": {
         "level": "exploration",
@@ -324,5 +336,13 @@ PROPS = {
         "rule": "sequential histories over {attach notification, attach deadline (1 h | 1 us), attach interval (1 h | 500 us), drop a guard, notify a service, drain a listener, process with zero timeout (sometimes notifying from inside the callback)} with 1-4 listeners on 1-2 event services, re-attach after detach, on the select (local) and epoll (ipc) reactors; after every processing call the set of reported attachments (matched against every live guard with has_event_from / has_missed_deadline) must equal the model set {attachments whose listener has an undrained notification} + {expired short deadlines/intervals}; no callback id may match no live guard; double attach must be refused with AlreadyAttached and len() unchanged; len() == live guards after every step; failing histories are shrunk. Non-trivial = a history with a processing call that reported something and at least one detach; distinct = distinct (configuration, history).",
         "assumptions": ["deadlines are either far (never expected) or already expired when processing starts (3 ms pause), so wall-clock never decides", "the declared capacity (millions of attachments) is not reachable before the process runs out of descriptors and is not driven"],
         "floor": (100, 30),
+    },
+    "C17": {
+        "level": "exploration",
+        "jobs": c17_jobs,
+        "exhaustive": lambda tier: tier == "thorough",
+        "rule": "three object graphs on one service name, on local and ipc services: publish-subscribe (node, service, publisher, subscriber, loaned sample, received sample, second node+service+subscriber), request-response (node, service, client, server, pending response, active request, received response), event (node, service, notifier, listener, wait set, wait-set guard; the guard must precede listener and wait set): the objects are dropped in every admissible permutation (thorough: all 5040 + 5040 + 240 per service type; quick: every 12th / every 2nd, offset by the seed); after EVERY single drop each survivor is exercised actively (publisher: send + two simultaneous loans; subscribers: receive; held samples, loans, requests, responses: checksum; client: send; server: receive; active request: respond; pending response: receive; notifier + listener + wait set: notify, process, wait) and must work; after the last drop no file or shm object may remain, no error may have been logged, and the same names must be creatable with different settings (ASan on a sample). Non-trivial = every permutation; distinct = distinct (service type, graph, permutation).",
+        "assumptions": ["drop orders the borrow checker forbids are out of scope here (C handles: C18)", "thread-safe service variants are not permuted"],
+        "floor": (200, 100),
     },
 }
